@@ -118,7 +118,8 @@ Definition sites : list site :=
     {| s_pkg := "interp"; s_file := "functions.go"; s_func := "*interp.toNative"; s_kind := SKPanic; s_ord := 1; s_arg := AKMessage; s_text := "panic(fmt.Sprintf(""unexpected argument type: %s"", typ.Kind()))" |};
     {| s_pkg := "interp"; s_file := "functions.go"; s_func := "fromNative"; s_kind := SKPanic; s_ord := 0; s_arg := AKMessage; s_text := "panic(fmt.Sprintf(""unexpected return slice: %s"", v.Type().Elem().Kind(" |};
     {| s_pkg := "interp"; s_file := "functions.go"; s_func := "fromNative"; s_kind := SKPanic; s_ord := 1; s_arg := AKMessage; s_text := "panic(fmt.Sprintf(""unexpected return type: %s"", v.Kind()))" |};
-    {| s_pkg := "interp"; s_file := "functions.go"; s_func := "*interp.sprintf"; s_kind := SKIndex; s_ord := 0; s_arg := AKLenChecked; s_text := "s[0]" |};
+    {| s_pkg := "interp"; s_file := "functions.go"; s_func := "*interp.sprintf"; s_kind := SKIndex; s_ord := 0; s_arg := AKOther; s_text := "stars[0]" |};
+    {| s_pkg := "interp"; s_file := "functions.go"; s_func := "*interp.sprintf"; s_kind := SKIndex; s_ord := 1; s_arg := AKLenChecked; s_text := "s[0]" |};
     {| s_pkg := "interp"; s_file := "interp.go"; s_func := "<package-level var>"; s_kind := SKMustCompile; s_ord := 0; s_arg := AKLiteral; s_text := "regexp.MustCompile(`(?s)^([_a-zA-Z][_a-zA-Z0-9]*)=(.*)`)" |};
     {| s_pkg := "interp"; s_file := "interp.go"; s_func := "*interp.execActions"; s_kind := SKIndex; s_ord := 0; s_arg := AKLenChecked; s_text := "action.Pattern[0]" |};
     {| s_pkg := "interp"; s_file := "interp.go"; s_func := "*interp.execActions"; s_kind := SKIndex; s_ord := 1; s_arg := AKLenChecked; s_text := "action.Pattern[0]" |};
